@@ -406,6 +406,11 @@ pub fn log_to_request(
     for w in wev {
         req.push_str(&format!(" W:{}", w.join(",")));
     }
+    // main left through process::exit(1) while workers could still be running: an event of a
+    // worker that had just taken an element may be missing from the log
+    if matches!(out.exit, Some(c) if c != 0) {
+        req.push_str(" G");
+    }
     Ok(req)
 }
 
